@@ -15,8 +15,10 @@ monitor becoming the race.
 """
 from __future__ import annotations
 
+import contextlib
 import hashlib
 import json
+import signal
 import threading
 import time
 import traceback
@@ -64,6 +66,10 @@ def fingerprint(*parts) -> str:
             h.update(repr(p).encode())
         h.update(b"|")
     return h.hexdigest()[:16]
+
+
+class CaseTimeout(BaseException):
+    """raised by Ctx.time_limit: the watched call did not return in time (verdict for that case: inconclusive)"""
 
 
 class Ctx:
@@ -164,6 +170,25 @@ class Ctx:
     def reject(self, kind):
         with self._lock:
             self.rejections[str(kind)] = self.rejections.get(str(kind), 0) + 1
+
+    @contextlib.contextmanager
+    def time_limit(self, seconds, what):
+        """Per-call wall-clock watchdog (main thread of a shard process only).  On expiry CaseTimeout -- a BaseException, so that the
+        checks' ``except Exception`` crash classifiers do not mistake it for a failure of the code under test -- is raised at the next
+        Python bytecode; the caller records the case as inconclusive (never held, never violated)."""
+        if threading.current_thread() is not threading.main_thread():
+            yield
+            return
+
+        def handler(signum, frame):
+            raise CaseTimeout(str(what))
+        old = signal.signal(signal.SIGALRM, handler)
+        signal.setitimer(signal.ITIMER_REAL, float(seconds))
+        try:
+            yield
+        finally:
+            signal.setitimer(signal.ITIMER_REAL, 0.0)
+            signal.signal(signal.SIGALRM, old)
 
     def inconclusive_case(self, why):
         with self._lock:
